@@ -1375,10 +1375,9 @@ func c17BilevelBody(r *fw.Rec, W, H int, sample bool, ctx map[string]interface{}
 			}
 		}
 		var c, d string
-		if msg, _, panicked := fw.Guard(func() { c, d = c17CheckBinary(r, bb, which, v, "bin_") }); panicked {
-			if !dcAccepted {
-				panic(msg)
-			}
+		if !dcAccepted {
+			c, d = c17CheckBinary(r, bb, which, v, "bin_")
+		} else if msg, _, panicked := fw.Guard(func() { c, d = c17CheckBinary(r, bb, which, v, "bin_") }); panicked {
 			c, d = "panic", "panic: "+msg
 		}
 		if c != "" {
